@@ -7,6 +7,10 @@ import Rare.Model.PipelineSkeleton
 import Rare.Proofs.PipelineTrace
 import Rare.Proofs.C01Classify
 import Rare.Proofs.C01Trim
+import Rare.Proofs.C01Summary
+import Rare.Proofs.C01Flags
+import Rare.Model.C01Source
+import Rare.Gen.C01
 /-!
 # C01 — every input line is read exactly once and classified exactly once
 
@@ -360,6 +364,319 @@ example : ∃ s, Reach (fun n : Nat => if n % 2 = 0 then Cls.matched else Cls.un
   obtain ⟨s, hr, hd⟩ := pipeline_reaches_end (fun n : Nat => if n % 2 = 0 then Cls.matched else Cls.unmatched)
     (R := 2) (B := 1) (K := 5) (by decide) (by decide) (by decide) _ _ _ .refl (Nat.le_refl _)
   exact ⟨s, hr, hd, (pipeline_final _ 2 1 5 3 (by decide) _ hr hd).1⟩
+
+/-! ## The summary line `Matched: M / R (Ignored: I)` (cmd/helpers/summary.go)
+
+`Model/C01Summary.lean`: `extractorSummary fmt col matched read ignored errors parts` mirrors
+`FWriteExtractorSummary` (with `FWriteMatchSummary`, `humanize.Hui` = `humanizeInt[uint64]` / `FormatUint` under
+`--noformat`, `color.Wrapi` / `color.Wrapf`); `readSummary` is the specification side: the three numbers a reader
+of the line takes it to report. -/
+
+/-- How a counter is printed: without the separators it is the decimal representation of the counter
+    (`strconv.FormatUint`), with `--noformat` it is exactly that, and otherwise the digits are grouped in
+    threes from the right – for every uint64. -/
+theorem summary_number_format (n : Nat) (h : n < 2 ^ 64) :
+    C11.Spec.stripCommas (hui true n) = natDigits n ∧ hui false n = natDigits n ∧
+    C11.Spec.groupedInThrees (hui true n) = true ∧ C17.decVal (natDigits n) = n := by
+  have h' : n < 10 ^ 20 := Nat.lt_trans h (by decide)
+  exact ⟨hui_strip true n h', rfl, hui_grouped n h', C17.decVal_natDigits n⟩
+
+/-- The line shows the three counters: reading the number after `Matched: `, the number after ` / ` and the number
+    of the ` (Ignored: …)` part (0 when the part is absent – it is absent exactly when the counter is 0) gives back
+    `(matched, read, ignored)`, with or without thousands separators and whatever the error count. -/
+theorem summary_shows_counters (fmt : Bool) (m r i e : Nat) (hm : m < 2 ^ 64) (hr : r < 2 ^ 64) (hi : i < 2 ^ 64) :
+    readSummary (extractorSummary fmt false m r i e []) = some (m, r, i) :=
+  readSummary_extractorSummary fmt m r i e (Nat.lt_trans hm (by decide)) (Nat.lt_trans hr (by decide))
+    (Nat.lt_trans hi (by decide))
+
+/-- Shape and boundary values: 0, 99/100 (the `FormatInt` shortcut), 999/1000 (first separator), seven digits,
+    the largest uint64, `--noformat`, the ignored part only for a non-zero counter, the errors part, additional
+    parts, and the colour codes. -/
+example :
+    summaryLine true false 0 0 0 = ascii "Matched: 0 / 0\n" ∧
+    summaryLine true false 99 100 0 = ascii "Matched: 99 / 100\n" ∧
+    summaryLine true false 999 1000 1 = ascii "Matched: 999 / 1,000 (Ignored: 1)\n" ∧
+    summaryLine true false 1000 1234567 234567 = ascii "Matched: 1,000 / 1,234,567 (Ignored: 234,567)\n" ∧
+    summaryLine false false 1000 1234567 234567 = ascii "Matched: 1000 / 1234567 (Ignored: 234567)\n" ∧
+    hui true 18446744073709551615 = ascii "18,446,744,073,709,551,615" ∧
+    extractorSummary true false 5 7 2 3 [ascii "(R: 1)"] = ascii "Matched: 5 / 7 (R: 1) (Ignored: 2) (Errors: 3)" ∧
+    extractorSummary true true 5 1000 2 0 [] =
+      ascii "Matched: \x1b[32;1m5\x1b[0m / \x1b[37;1m1,000\x1b[0m (Ignored: \x1b[31m2\x1b[0m)" := by
+  decide +kernel
+
+/-- The summary printed after ANY complete run is the summary of the sequential evaluation: the line written from
+    the three counters of a terminal state reads back as (matched, read, ignored) of `seqTotals`, and
+    `read = matched + ignored + unmatched`.  The counters are uint64: fewer than 2^64 lines. -/
+theorem pipeline_final_summary (cls : Line → Cls) (R B K W batchSize : Nat) (hW : 1 ≤ W)
+    (datas : List Bytes) (timer : Nat → Nat → Bool) (hsize : (allLines datas).length < 2 ^ 64) {s : St Line}
+    (hr : Reach cls R B K
+      (init ((datas.zipIdx 0).map fun p =>
+        (run batchSize ((linesOf p.2 p.1).map fun l => (l, timer p.2 l.num))).map (·.lines)) W) s)
+    (hd : s.consDone = true) (fmt : Bool) :
+    let t := seqTotals cls (allLines datas)
+    summaryLine fmt false s.nMatched s.nRead s.nIgnored = summaryLine fmt false t.matched t.read t.ignored ∧
+    readSummary (extractorSummary fmt false s.nMatched s.nRead s.nIgnored 0 []) = some (t.matched, t.read, t.ignored) ∧
+    t.read = t.matched + t.ignored + ((allLines datas).filter fun l => cls l = .unmatched).length := by
+  obtain ⟨_, htot⟩ := pipeline_final_bytes cls R B K W batchSize hW datas timer hr hd
+  simp only [seqTotals, Totals.mk.injEq] at htot
+  obtain ⟨h1, h2, h3⟩ := htot
+  have hm : ((allLines datas).filter (isMatched cls)).length ≤ (allLines datas).length := List.length_filter_le _ _
+  have hi : ((allLines datas).filter (isIgnored cls)).length ≤ (allLines datas).length := List.length_filter_le _ _
+  simp only [seqTotals]
+  refine ⟨by rw [h1, h2, h3], ?_, ?_⟩
+  · rw [h1, h2, h3]
+    exact summary_shows_counters fmt _ _ _ 0 (by omega) (by omega) (by omega)
+  · generalize allLines datas = all
+    induction all with
+    | nil => simp
+    | cons x xs ih =>
+      simp only [List.length_cons, List.filter_cons, isMatched, isIgnored]
+      have hc : cls x = .matched ∨ cls x = .ignored ∨ cls x = .unmatched := by cases cls x <;> simp
+      rcases hc with h | h | h <;> simp [h] <;> omega
+
+/-! ## From the command line to the parameters of the transition system (cmd/helpers/extractorBuilder.go)
+
+`Model/C01Flags.lean`: `configure f input` mirrors `BuildBatcherFromArguments` + `BuildExtractorFromArgumentsEx` +
+the constructors as far as the four tuning flags go: the usage guards (interpreted from the table that
+`flag_plumbing_matches_source` proves equal to the source's), which value becomes which parameter, the worker
+fallback. -/
+
+/-- A flag set is accepted exactly when `--batch >= 1`, `--batch-buffer >= 0` and `--readers >= 1`; `--workers` is
+    never rejected. -/
+theorem flags_accepted_iff (f : Flags) (input : Input) :
+    (∃ cfg, configure f input = .ok cfg) ↔ (1 ≤ f.batch ∧ 0 ≤ f.batchBuffer ∧ 1 ≤ f.readers) := by
+  unfold configure
+  rw [checkGuards_usageGuards]
+  by_cases h1 : f.batch < 1
+  · simp only [h1, if_true]; constructor
+    · rintro ⟨_, h⟩; cases h
+    · intro h; omega
+  · by_cases h2 : f.batchBuffer < 0
+    · simp only [h1, h2, if_true, if_false]; constructor
+      · rintro ⟨_, h⟩; cases h
+      · intro h; omega
+    · by_cases h3 : f.readers < 1
+      · simp only [h1, h2, h3, if_true, if_false]; constructor
+        · rintro ⟨_, h⟩; cases h
+        · intro h; omega
+      · simp only [h1, h2, h3, if_false]
+        exact ⟨fun _ => by omega, fun _ => ⟨_, rfl⟩⟩
+
+/-- Every rejection is an invalid-usage exit (code 2), with the message of the FIRST guard that fires. -/
+theorem flags_rejected (f : Flags) (input : Input) (u : Usage) (h : configure f input = .error u) :
+    u.code = 2 ∧
+    (f.batch < 1 → u.msg = fmtMsg "Batch size must be >= 1, is %d" f.batch) ∧
+    (1 ≤ f.batch → f.batchBuffer < 0 → u.msg = fmtMsg "Batch buffer must be >= 0, is %d" f.batchBuffer) ∧
+    (1 ≤ f.batch → 0 ≤ f.batchBuffer → u.msg = "Must have at least 1 reader") := by
+  unfold configure at h
+  rw [checkGuards_usageGuards] at h
+  by_cases h1 : f.batch < 1
+  · simp only [h1, if_true] at h
+    injection h with h; subst h
+    exact ⟨rfl, fun _ => rfl, fun _ => by omega, fun _ => by omega⟩
+  · by_cases h2 : f.batchBuffer < 0
+    · simp only [h1, h2, if_true, if_false] at h
+      injection h with h; subst h
+      exact ⟨rfl, fun _ => by omega, fun _ _ => rfl, fun _ _ => by omega⟩
+    · by_cases h3 : f.readers < 1
+      · simp only [h1, h2, h3, if_true, if_false] at h
+        injection h with h; subst h
+        exact ⟨rfl, fun _ => by omega, fun _ _ => by omega, fun _ _ => rfl⟩
+      · simp only [h1, h2, h3, if_false] at h
+        cases h
+
+/-- Which value goes where, for every accepted flag set: the batch size of the batching loop is `--batch` (≥ 1),
+    the capacity of the batch channel is `--batch-buffer`, the semaphore holds `--readers` slots for files and
+    stdin is a single reader running the time-flushing loop, `readChan` has capacity 5, and the number of workers
+    is `--workers` when that is at least 1 and 2 otherwise – never 0. -/
+theorem flags_config (f : Flags) (input : Input) (cfg : PipeCfg) (h : configure f input = .ok cfg) :
+    (cfg.batch : Int) = f.batch ∧ 1 ≤ cfg.batch ∧ (cfg.B : Int) = f.batchBuffer ∧ cfg.K = 5 ∧
+    1 ≤ cfg.W ∧ (1 ≤ f.workers → (cfg.W : Int) = f.workers) ∧ (f.workers ≤ 0 → cfg.W = 2) ∧
+    1 ≤ cfg.R ∧ (input = .files → (cfg.R : Int) = f.readers ∧ cfg.timed = false) ∧
+    (input = .stdin → cfg.R = 1 ∧ cfg.timed = true) := by
+  have hacc := (flags_accepted_iff f input).mp ⟨cfg, h⟩
+  obtain ⟨h1, h2, h3⟩ := hacc
+  unfold configure at h
+  split at h
+  · cases h
+  · injection h with h
+    subst h
+    simp only [getWorkerCount]
+    refine ⟨by omega, by omega, by omega, (by first | rfl | trivial), ?_, ?_, ?_, ?_, ?_, ?_⟩
+    · split <;> omega
+    · intro hw; have : ¬ f.workers ≤ 0 := by omega
+      simp only [this, if_false]; omega
+    · intro hw; simp [hw]
+    · cases input <;> simp <;> omega
+    · intro hi; subst hi; simp; omega
+    · intro hi; subst hi; simp
+
+/-- The defaults are accepted on every machine: batch 1000, three readers, `NumCPU/2+1` workers and twice as
+    many buffered batches. -/
+theorem flags_default_accepted (numCPU : Nat) (input : Input) :
+    ∃ cfg, configure (Flags.default numCPU) input = .ok cfg ∧ cfg.batch = 1000 ∧ cfg.W = numCPU / 2 + 1 ∧
+      cfg.B = 2 * (numCPU / 2 + 1) ∧ cfg.K = 5 := by
+  have hacc : 1 ≤ (Flags.default numCPU).batch ∧ 0 ≤ (Flags.default numCPU).batchBuffer ∧ 1 ≤ (Flags.default numCPU).readers := by
+    simp only [Flags.default, workerCount]; omega
+  obtain ⟨cfg, h⟩ := (flags_accepted_iff _ input).mpr hacc
+  obtain ⟨hb, _, hB, hK, _, hW, _⟩ := flags_config _ input cfg h
+  refine ⟨cfg, h, ?_, ?_, ?_, hK⟩
+  · simp only [Flags.default] at hb; omega
+  · have := hW (by simp only [Flags.default, workerCount]; omega)
+    simp only [Flags.default, workerCount] at this; omega
+  · simp only [Flags.default, workerCount] at hB; omega
+
+/-- Boundary values: `--batch 0`, `--batch-buffer -1`, `--readers 0` are usage errors (exit code 2, the real
+    messages); `--batch-buffer 0` (an unbuffered channel) and `--workers 0` / `-3` (two workers) are accepted. -/
+example :
+    configure ⟨0, 4, 2, 3⟩ .files = .error ⟨2, "Batch size must be >= 1, is 0"⟩ ∧
+    configure ⟨-7, -1, 2, 0⟩ .files = .error ⟨2, "Batch size must be >= 1, is -7"⟩ ∧
+    configure ⟨1, -1, 2, 0⟩ .stdin = .error ⟨2, "Batch buffer must be >= 0, is -1"⟩ ∧
+    configure ⟨1, 0, 2, 0⟩ .files = .error ⟨2, "Must have at least 1 reader"⟩ ∧
+    configure ⟨1, 0, 0, 1⟩ .files = .ok ⟨1, 1, 0, 2, 5, false⟩ ∧
+    configure ⟨7, 3, -3, 4⟩ .files = .ok ⟨7, 4, 3, 2, 5, false⟩ ∧
+    configure ⟨7, 3, 6, 4⟩ .stdin = .ok ⟨7, 1, 3, 6, 5, true⟩ := by
+  refine ⟨rfl, rfl, rfl, rfl, rfl, rfl, rfl⟩
+
+/-- The end-to-end statement for the command line: for EVERY accepted flag set with a buffered batch channel
+    (`--batch-buffer >= 1`), files or stdin, every extractor configuration and every input, (i) some execution of
+    the pipeline with the parameters the flags configure reaches the end of the stream, and (ii) every execution
+    that does ends with the sequential outcome: the consumer holds exactly the lines matched in their own
+    context, with their own keys, and the counters are the sequential class counts. -/
+theorem cli_final (f : Flags) (input : Input) (cfg : PipeCfg) (hc : configure f input = .ok cfg)
+    (hB : 1 ≤ f.batchBuffer) (e : Extractor) (datas : List Bytes) (timer : Nat → Nat → Bool)
+    (hnp : NoPanic e (allLines datas)) :
+    let s0 := init ((datas.zipIdx 0).map fun p =>
+        (run cfg.batch ((linesOf p.2 p.1).map fun l => (l, timer p.2 l.num))).map (·.lines)) cfg.W
+    (∃ s, Reach (clsOf e) cfg.R cfg.B cfg.K s0 s ∧ s.consDone = true) ∧
+    ∀ s, Reach (clsOf e) cfg.R cfg.B cfg.K s0 s → s.consDone = true →
+      s.consumed.Perm ((allLines datas).filter (outcomeIs e .matched)) ∧
+      (∀ l ∈ s.consumed, processLine e l = .ok (.matched (keyOf e l)) ∧ keyOf e l ≠ []) ∧
+      s.nRead = (allLines datas).length ∧
+      s.nMatched = ((allLines datas).filter (outcomeIs e .matched)).length ∧
+      s.nIgnored = ((allLines datas).filter (outcomeIs e .ignored)).length := by
+  obtain ⟨_, _, hBe, hK, hW, _, _, hR, _, _⟩ := flags_config f input cfg hc
+  intro s0
+  refine ⟨?_, ?_⟩
+  · exact pipeline_reaches_end (clsOf e) hR (by omega) (by omega) _ s0 s0 .refl (Nat.le_refl _)
+  · intro s hr hd
+    obtain ⟨h1, h2, h3, h4, h5, _⟩ := pipeline_final_classified e cfg.R cfg.B cfg.K cfg.W cfg.batch hW datas timer hnp hr hd
+    exact ⟨h1, h2, h3, h4, h5⟩
+
+/-! ## The source the models were written against (translator tie, `harness/extract/c01.go`) -/
+
+/-- Every statement (with its conditions, in source order) of the functions the classification, summary and
+    plumbing models mirror is the one the models were written against (`Model/C01Source.lean`): in
+    `processLineSync` the context's `linePtr`, `indices`, `source`, `lineNum` are assigned before
+    `IgnoreMatch(expContext)`, which is evaluated before `BuildKey(expContext)`; `IgnoreMatch` returns at the first
+    truthy result; `Truthy` is `strings.TrimSpace(s) != ""`. -/
+theorem source_statements_match :
+    Gen.C01.stmts_processLineSync = Source.stmts_processLineSync ∧
+    Gen.C01.stmts_ignoreMatch = Source.stmts_ignoreMatch ∧
+    Gen.C01.stmts_newIgnoreExpressions = Source.stmts_newIgnoreExpressions ∧
+    Gen.C01.stmts_truthy = Source.stmts_truthy ∧
+    Gen.C01.stmts_getWorkerCount = Source.stmts_getWorkerCount ∧
+    Gen.C01.stmts_buildBatcherFromArguments = Source.stmts_buildBatcherFromArguments ∧
+    Gen.C01.stmts_buildExtractorFromArgumentsEx = Source.stmts_buildExtractorFromArgumentsEx ∧
+    Gen.C01.stmts_newBatcher = Source.stmts_newBatcher ∧
+    Gen.C01.stmts_fWriteMatchSummary = Source.stmts_fWriteMatchSummary ∧
+    Gen.C01.stmts_fWriteExtractorSummary = Source.stmts_fWriteExtractorSummary ∧
+    Gen.C01.stmts_writeExtractorSummary = Source.stmts_writeExtractorSummary ∧
+    Gen.C01.stmts_hui = Source.stmts_hui ∧
+    Gen.C01.stmts_humanizeInt = Source.stmts_humanizeInt ∧
+    Gen.C01.stmts_colorWrap = Source.stmts_colorWrap ∧
+    Gen.C01.stmts_colorWrapi = Source.stmts_colorWrapi ∧
+    Gen.C01.stmts_colorWrapf = Source.stmts_colorWrapf ∧
+    Gen.C01.stmts_filterFunction = Source.stmts_filterFunction := by
+  refine ⟨rfl, rfl, rfl, rfl, rfl, rfl, rfl, rfl, rfl, rfl, rfl, rfl, rfl, rfl, rfl, rfl, rfl⟩
+
+/-- The guard table `configure` interprets IS the source's (variable, comparison, bound, exit code, message, in
+    order); each guarded variable is read from the flag the model says; the constructors receive
+    `batchSize`/`batchBuffer`/`concurrentReaders` in the positions of their `batchSize`/`batchBuffer`/`concurrency`
+    parameters and use them as channel capacity / semaphore size / batch size; the exit code, the worker fallback
+    and the flag defaults are the model's. -/
+theorem flag_plumbing_matches_source :
+    Gen.C01.usageGuards = usageGuards ∧
+    Gen.C01.flagReads = Source.flagReads ∧
+    Gen.C01.constructorCalls = Source.constructorCalls ∧
+    Gen.C01.params_openFilesToChan = Source.params_openFilesToChan ∧
+    Gen.C01.params_openReaderToChan = Source.params_openReaderToChan ∧
+    Gen.C01.params_newBatcher = Source.params_newBatcher ∧
+    Gen.C01.params_syncReaderToBatcher = Source.params_syncReaderToBatcher ∧
+    Gen.C01.params_syncReaderToBatcherWithTimeFlush = Source.params_syncReaderToBatcherWithTimeFlush ∧
+    Gen.C01.uses_openFilesToChan = Source.uses_openFilesToChan ∧
+    Gen.C01.uses_openReaderToChan = Source.uses_openReaderToChan ∧
+    Gen.C01.uses_newBatcher = Source.uses_newBatcher ∧
+    Gen.C01.uses_syncReaderToBatcher = Source.uses_syncReaderToBatcher ∧
+    Gen.C01.uses_syncReaderToBatcherWithTimeFlush = Source.uses_syncReaderToBatcherWithTimeFlush ∧
+    Gen.C01.uses_extractorNew = Source.uses_extractorNew ∧
+    Gen.C01.extractorFlags = Source.extractorFlags ∧
+    Gen.C01.workerCountExpr = "runtime.NumCPU()/2+1" ∧
+    exitCodeOf "ExitCodeInvalidUsage" = Gen.C01.exitCodeInvalidUsage ∧
+    exitCodeOf "ExitCodeNoData" = Gen.C01.exitCodeNoData ∧
+    (∀ w : Int, getWorkerCount w = if w ≤ Gen.C01.workersBound then Gen.C01.workersFallback.toNat else w.toNat) := by
+  refine ⟨rfl, rfl, rfl, rfl, rfl, rfl, rfl, rfl, rfl, rfl, rfl, rfl, rfl, rfl, rfl, rfl, rfl, rfl, ?_⟩
+  intro w; rfl
+
+/-- The format strings, colours and number-format constants of the summary line are the model's. -/
+theorem summary_constants_from_source :
+    Gen.C01.lits_fWriteMatchSummary = Source.lits_fWriteMatchSummary ∧
+    Gen.C01.lits_fWriteExtractorSummary = Source.lits_fWriteExtractorSummary ∧
+    Gen.C01.colorReset = cReset ∧ Gen.C01.colorBrightGreen = cBrightGreen ∧
+    Gen.C01.colorBrightWhite = cBrightWhite ∧ Gen.C01.colorRed = cRed ∧
+    Gen.C01.baseSeparator = 44 ∧ Gen.C01.huiSmall = 100 ∧ Gen.C01.huiGroup = 3 := by
+  refine ⟨rfl, rfl, ?_, ?_, ?_, ?_, rfl, rfl, rfl⟩ <;> decide +kernel
+
+/-! ## A consumer that stops early (`rare filter -n NUM`)
+
+`cmd/filter.go` breaks out of its receive loop after NUM printed matches and never reads `ReadChan()` again; the
+reader and worker goroutines then block on their sends until the process exits (there is no cancellation path in
+`pkg/extractor`).  In the transition system this is "the consumer takes no further step", so everything the
+consumer has seen is what some reachable state's `consumed` holds. -/
+
+/-- What `filter -n limit` prints is the first `limit` matches received (all when `limit = 0`), independent of how
+    the matches were grouped into batches. -/
+theorem filter_limit_prefix {β : Type} (limit : Nat) (bs : List (List β)) :
+    filterLoop limit bs [] = if limit = 0 then bs.flatten else bs.flatten.take limit :=
+  filterLoop_eq limit bs
+
+/-- Early stop is safe: at EVERY reachable state (so wherever the consumer stops), for every limit and every
+    grouping `bs` of what it has received, each printed match is a matched input line, printed no more often than
+    it occurs in the input (no duplicate, nothing invented), at most `limit` are printed, and the `matched`
+    counter already covers them. -/
+theorem pipeline_early_stop (cls : α → Cls) (R B K W : Nat) (inputs : List (List (List α))) {s : St α}
+    (hr : Reach cls R B K (init inputs W) s) (limit : Nat) (bs : List (List α)) (hbs : bs.flatten = s.consumed) :
+    let printed := filterLoop limit bs []
+    (∀ y, printed.count y ≤ ((inputs.flatMap List.flatten).filter (isMatched cls)).count y) ∧
+    (0 < limit → printed.length ≤ limit) ∧ printed.length ≤ s.nMatched := by
+  have hinv := pipeline_invariant cls R B K W inputs hr
+  have hsub : (filterLoop limit bs []).Sublist s.consumed := by
+    rw [filterLoop_eq, hbs]
+    split
+    · exact List.Sublist.refl _
+    · exact List.take_sublist _ _
+  refine ⟨fun y => Nat.le_trans (hsub.count_le y) (consumed_le_final hinv y), ?_, ?_⟩
+  · intro hl
+    rw [filterLoop_eq]
+    have : limit ≠ 0 := by omega
+    simp only [this, if_false, List.length_take]
+    omega
+  · exact Nat.le_trans hsub.length_le (matched_ge_consumed hinv)
+
+/-- When the run does complete (the limit was not reached before the stream ended, or there is none), exactly
+    `min limit M` matches were printed, `M` the sequential number of matches. -/
+theorem filter_limit_complete (cls : α → Cls) (R B K W : Nat) (hW : 1 ≤ W) (inputs : List (List (List α))) {s : St α}
+    (hr : Reach cls R B K (init inputs W) s) (hd : s.consDone = true) (limit : Nat) (hl : 0 < limit)
+    (bs : List (List α)) (hbs : bs.flatten = s.consumed) :
+    (filterLoop limit bs []).length = min limit ((inputs.flatMap List.flatten).filter (isMatched cls)).length := by
+  have hp := (pipeline_final cls R B K W hW inputs hr hd).1
+  rw [filterLoop_eq, hbs]
+  have : limit ≠ 0 := by omega
+  simp only [this, if_false, List.length_take, hp.length_eq]
+
+/-- Non-vacuity: two batches `[a, b]`, `[c, d]`, limit 3 – the loop stops inside the second batch. -/
+example : filterLoop 3 [[1, 2], [3, 4]] ([] : List Nat) = [1, 2, 3] ∧ filterLoop 0 [[1, 2], [3, 4]] ([] : List Nat) = [1, 2, 3, 4] ∧
+    filterSummary true false 3 3 4 9 1 = ascii "Matched: 3 / 3\n" := by decide +kernel
 
 /-! ## Trace inclusion: the event log of a real run is a path of the transition system
 
